@@ -51,6 +51,35 @@ def fitted_models(vc, rng, n_random):
     return out
 
 
+def narrow_models(vc, rng, n_random):
+    """Hs-steepness models of the shipped structures whose conditional law of Tz is NARROW at bulk values of Hs
+    (it fits into one or two steps of the support search grid 100 * 0.7^k); (name, base, tr, Hs quantile).
+    The first four are the models of defect D58, the others seeded variants within a factor 2 of them."""
+    fixed = [
+        ("N round median", "get_Nonzero_EW_Hs_S", (1.5, 0.8, 6), (0.04, 0.5), (1.5, 2.0), 0.5),
+        ("W round 75%", "get_Windmeier_EW_Hs_S", (1.5, 0.8, 6), (0.05, 1.0), (1.5, 2.0), 0.75),
+        ("W round 90% stepped-over", "get_Windmeier_EW_Hs_S", (1.5, 0.8, 4), (0.06, 0.5), (1.0, 2.0), 0.9),
+        ("W near dataset-C fit 90%", "get_Windmeier_EW_Hs_S", (0.3558 * 1.441, 0.7722 * 0.707, 5.373 * 0.837),
+         (0.04245 * 1.349, 0.988 * 0.781), (1.385 * 1.022, 0.856 * 1.782), 0.9),
+    ]
+    cases = list(fixed)
+    for j in range(n_random):
+        lab, getter, hp, ap, bp, q = fixed[j % 4]
+        f = lambda t: tuple(float(v) * float(rng.uniform(0.75, 1.33)) for v in t)  # noqa
+        cases.append((f"{lab} variant{j}", getter, f(hp), f(ap), f(bp), float(rng.choice([0.5, 0.75, 0.9]))))
+    out = []
+    for lab, getter, hp, ap, bp, q in cases:
+        dd, fd, sem, tr = getattr(vc, getter)()
+        dd[0]["distribution"] = vc.ExponentiatedWeibullDistribution(*hp)
+        base = vc.GlobalHierarchicalModel(dd)
+        cond = base.distributions[1]
+        for pname, vals in (("alpha", ap), ("beta", bp)):
+            fn = cond.conditional_parameters[pname]
+            fn.parameters = dict(zip(list(fn.parameters.keys()), vals))
+        out.append(("narrow:" + lab, base, tr, q))
+    return out
+
+
 def tmodel(vc, base, tr, pf=0.1, rs=None):
     return vc.TransformedModel(base, tr["transform"], tr["inverse"], tr["jacobian"], precision_factor=pf, random_state=rs)
 
@@ -181,6 +210,42 @@ def rec_cdfemp_refit(vc, rid, name, rng):
     return r
 
 
+def recs_cache_history(vc, nid, getter, hist, rng):
+    """One history emitted by SampleCache.tla (fitT = TransformedModel.fit, fitB = the wrapped model fitted directly,
+    read = empirical_cdf) replayed on a real TransformedModel; one "cdfemp" record per read: the value is compared with
+    the empirical cdf of a fresh sample of the model as it is at that moment (two-sample DKW)."""
+    out = []
+    label = " ".join(hist)
+    try:
+        import copy as _c
+        dd, fd, sem, tr = getattr(vc, getter)()
+        sets = [vc.read_ec_benchmark_dataset(str(REPO / "datasets" / f"ec-benchmark_dataset_{k}_1year.txt")).values for k in "AC"]
+        t = tmodel(vc, vc.GlobalHierarchicalModel(dd), tr)
+        x = np.array([[2.0, 6.0]])
+        nfit = 0
+        with warnings.catch_warnings():
+            warnings.simplefilter("ignore")
+            t.fit(sets[0], _c.deepcopy(fd))
+            for i, op in enumerate(hist):
+                if op == "fitT":
+                    nfit += 1
+                    t.fit(sets[nfit % 2], _c.deepcopy(fd))
+                elif op == "fitB":
+                    nfit += 1
+                    t.model.fit(tr["transform"](sets[nfit % 2]), _c.deepcopy(fd))
+                else:
+                    np.random.seed(int(rng.integers(0, 2**31)))
+                    e2 = float(t.empirical_cdf(x)[0])
+                    n = 400000
+                    fresh = t.draw_sample(n)
+                    e3 = float((fresh <= x).all(axis=1).mean())
+                    out.append(dict(id=nid(), kind="cdfemp", exc="", name=f"{getter[4:]} cache history [{label}] read@{i}",
+                                    n=n // 4, d4=clampq(abs(e2 - e3), 1e4)))
+    except Exception as e:  # noqa
+        out.append(dict(id=nid(), kind="cdfemp", exc=f"{type(e).__name__}: {e}"[:200], name=f"{getter[4:]} cache history [{label}]"))
+    return out
+
+
 def rec_samples(vc, rid, name, base, tr, rng, n):
     t = tmodel(vc, base, tr)
     r = dict(id=rid, kind="samples", exc="", name=name)
@@ -201,7 +266,7 @@ def rec_samples(vc, rid, name, base, tr, rng, n):
 
 def rec_cond(vc, rid, name, base, tr, q, rng):
     t = tmodel(vc, base, tr)
-    r = dict(id=rid, kind="cond", exc="", name=name, q=str(q), hooked=False, k=-1, atfloor=False, fstop=True, fprev=True,
+    r = dict(id=rid, kind="cond", exc="", name=name, q=str(q), hooked=False, k=-1, atfloor=False, fat=False, fnext=True,
              tail=0, sampled=False, ks4=0, n=1, cdf4=0, ncdf=1, icdf4=0, nicdf=1, intsame=True)
     hs = float(base.distributions[0].icdf(q))
     sink = []
@@ -229,8 +294,9 @@ def rec_cond(vc, rid, name, base, tr, q, rng):
             r["k"] = int(round(kk)) if abs(kk - round(kk)) < 1e-6 else (-1 if xm > 0.05 + 1e-12 else int(round(kk)))
             r["atfloor"] = bool(abs(xm - 0.05) < 1e-12 or xm * 0.7 <= 0.05)
             pdf_at = lambda z: float(t.pdf(np.array([[hs, z]]))[0])  # noqa
-            r["fstop"] = bool(pdf_at(xm) >= f["f_threshold"])
-            r["fprev"] = bool(xm >= 100.0 - 1e-9 or pdf_at(xm / 0.7) < f["f_threshold"])
+            # the search since D58 returns the grid value tried BEFORE the first one that reaches the threshold
+            r["fat"] = bool(pdf_at(xm) >= f["f_threshold"])
+            r["fnext"] = bool(pdf_at(xm * 0.7) >= f["f_threshold"])
             r["tail"] = clampq(1.0 - float(exact_tz_cdf(base, xm, hs)), 1e9)
         if smp is not None and len(smp) >= 1000:
             xs = np.sort(smp)
@@ -268,8 +334,8 @@ def rec_cond_history(vc, rid, name, base0, tr, rng):
     answer is judged against the exact conditional law of the CHANGED model."""
     base = copy.deepcopy(base0)
     t = tmodel(vc, base, tr)
-    r = dict(id=rid, kind="cond", exc="", name=name + " after-change", q="0.5", hooked=False, k=-1, atfloor=False, fstop=True,
-             fprev=True, tail=0, sampled=False, ks4=0, n=1, cdf4=0, ncdf=1, icdf4=0, nicdf=1, intsame=True)
+    r = dict(id=rid, kind="cond", exc="", name=name + " after-change", q="0.5", hooked=False, k=-1, atfloor=False, fat=False,
+             fnext=True, tail=0, sampled=False, ks4=0, n=1, cdf4=0, ncdf=1, icdf4=0, nicdf=1, intsame=True)
     try:
         hs = float(base.distributions[0].icdf(0.5))
         seed = int(rng.integers(1, 2**31))
@@ -351,14 +417,19 @@ def run(ctx):
     ctx.trusted = ["TLC evaluating Trace_C16 (DKW at 1e-12 in integer arithmetic)",
                    "exact conditional law of Tz given Hs from the base model's conditional steepness distribution and the monotone transform",
                    "central differences (h=1e-5 relative) for |det dT/dx|; Simpson rule in log-coordinates for the total mass",
-                   "hook event cond_sample_support (x_max bound to truth by re-evaluating the joint pdf at x_max and x_max/0.7)"]
+                   "hook event cond_sample_support (x_max bound to truth by re-evaluating the joint pdf at x_max and 0.7 x_max)"]
     ctx.assumptions = ["Monte-Carlo sizes n0/n1 of the transformed IFORM are recomputed in the driver with the documented sizing rule",
                        "conditional laws are checked for the second variable (Tz given Hs), where an exact reference exists"]
-    ctx.model_check("SupportSearch", "MC_SupportSearch_relative.cfg", must_cover=("Shrink", "Stop"))
-    ctx.model_check("SupportSearch", "MC_SupportSearch_bulk.cfg")
-    # the search as coded (absolute threshold) violates NoTailTruncation for down-scaled profiles:
-    # the design-level counterpart of the known finding on extreme conditioning values
-    ctx.model_check("SupportSearch", "MC_SupportSearch_ascoded.cfg", expect_violation="NoTailTruncation")
+    ctx.model_check("SupportSearch", "MC_SupportSearch_current.cfg", must_cover=("Shrink", "Stop", "Floor"))
+    ctx.model_check("SupportSearch", "MC_SupportSearch_relative.cfg")
+    # the search up to D58 (first grid value above the threshold) cuts into / steps over narrow profiles
+    ctx.model_check("SupportSearch", "MC_SupportSearch_firstabove.cfg", expect_violation="NoTailTruncation")
+    # the absolute threshold finds nothing in a profile that an extreme conditioning value scaled down:
+    # the design-level counterpart of the known finding D15
+    ctx.model_check("SupportSearch", "MC_SupportSearch_extreme.cfg", expect_violation="NoTailTruncation")
+    ctx.model_check("SampleCache", "MC_SampleCache_tagged.cfg", must_cover=("FitTransformed", "FitBase", "Read"))
+    ctx.model_check("SampleCache", "MC_SampleCache_fitonly.cfg", expect_violation="CacheCurrent")
+    ctx.model_check("SampleCache", "MC_SampleCache_never.cfg", expect_violation="CacheCurrent")
     ctx.model_check("Transformed", "MC_Transformed.cfg", must_cover=("Compute",))
     ctx.model_check("Transformed", "MC_Transformed_mut.cfg", expect_violation="Reproducible")
     ctx.model_check("Transformed", "MC_Transformed_cache.cfg", expect_violation="Reproducible")
@@ -396,10 +467,22 @@ def run(ctx):
     for name, base, tr in models[:ctx.pick(1, 3)]:
         add(rec_cdfemp(vc, nid(), name, base, tr, rng))
     add(rec_cdfemp_refit(vc, nid(), ["Nonzero_EW_Hs_S", "Windmeier_EW_Hs_S"][ctx.seed % 2], rng))
+    # life cycle of the lazily drawn sample: histories emitted by SampleCache.tla
+    hists = [h["hist"] for h in ctx.generate("SampleCache", "Gen_SampleCache.cfg")]
+    crit = [h for h in hists if any(h[i] == "read" and "fitB" in h[i + 1:j] and h[j] == "read"
+                                    for i in range(len(h)) for j in range(i + 1, len(h)))]
+    if ctx.quick:
+        rest = [h for h in hists if h not in crit]
+        hists = crit[:2] + [rest[int(k)] for k in rng.choice(len(rest), 2, replace=False)]
+    for hi, h in enumerate(hists):
+        for r in recs_cache_history(vc, nid, ["get_Nonzero_EW_Hs_S", "get_Windmeier_EW_Hs_S"][(hi + ctx.seed) % 2], h, rng):
+            add(r)
     qs = ctx.pick([0.5, 0.9, 0.99, 0.999, 0.9999], [0.1, 0.5, 0.9, 0.99, 0.999, 0.9999, 0.99999])
     for name, base, tr in models[:ctx.pick(2, 6)]:
         for q in qs:
             add(rec_cond(vc, nid(), name, base, tr, q, rng))
+    for name, base, tr, q in narrow_models(vc, rng, ctx.pick(0, 16)):
+        add(rec_cond(vc, nid(), name, base, tr, q, rng))
     for name, base, tr in models[:ctx.pick(1, 3)]:
         add(rec_cond_history(vc, nid(), name, base, tr, rng))
     icases = ctx.pick([(0, 0.05, 6, 0.1)], [(0, 0.05, 8, 0.1), (1, 0.02, 8, 0.5), (2, 0.05, 6, 1.0), (3, 0.1, 10, 0.2)])
